@@ -27,7 +27,11 @@ impl<T> Receiver<T> {
     pub fn receive(&self) -> Option<T> {
         match self.inner.try_recv() {
             Ok(inner) => Some(inner),
-            Err(crossbeam_channel::TryRecvError::Empty) => None,
+            Err(crossbeam_channel::TryRecvError::Empty) => {
+                #[cfg(crux_verif)]
+                crate::verif::point("chan.recv.empty");
+                None
+            }
             Err(crossbeam_channel::TryRecvError::Disconnected) => {
                 // Users _generally_ shouldn't be messing with channels themselves, so
                 // this probably shouldn't happen.  Might happen in tests, but lets
@@ -45,7 +49,11 @@ impl<T> Receiver<T> {
     pub fn try_receive(&self) -> Result<Option<T>, ()> {
         match self.inner.try_recv() {
             Ok(inner) => Ok(Some(inner)),
-            Err(crossbeam_channel::TryRecvError::Empty) => Ok(None),
+            Err(crossbeam_channel::TryRecvError::Empty) => {
+                #[cfg(crux_verif)]
+                crate::verif::point("chan.recv.empty");
+                Ok(None)
+            }
             Err(crossbeam_channel::TryRecvError::Disconnected) => Err(()),
         }
     }
